@@ -380,7 +380,21 @@ func Classify(src string, tf parser.TemplateFile, formatted string) string {
 				}
 			}
 			if e, ok := n.(parser.Element); ok && !e.IsBlockElement() && e.IndentChildren {
-				inlineMultiline = true
+				// only where it touches a sibling on the same line (the line break the formatter puts there is new)
+				touchesPrev := false
+				if i > 0 {
+					if wt, ok := nodes[i-1].(parser.WhitespaceTrailer); ok && wt.Trailing() == parser.SpaceNone {
+						touchesPrev = true
+					} else if !ok {
+						if _, isWS := nodes[i-1].(parser.Whitespace); !isWS {
+							touchesPrev = true
+						}
+					}
+				}
+				touchesNext := i+1 < len(nodes) && e.TrailingSpace == parser.SpaceNone
+				if touchesPrev || touchesNext {
+					inlineMultiline = true
+				}
 			}
 		}
 	})
